@@ -22,7 +22,7 @@ ASSUMPTIONS = ['in log scale a non-positive lower limit is replaced as documente
 CHUNK = 2
 
 RES = [256, 1000, 1024, 4096, 65536, 262144]
-STATES = ['raw', 'rfi-lin', 'rfi-log4', 'rfi-log2.5-0', 'mef', 'float-neg']
+STATES = ['raw', 'rfi-lin', 'rfi-log4', 'rfi-log2.5-0', 'mef', 'float-neg', 'shifted']      # 'shifted': range starting below zero (linear scale only)
 
 
 def make(res3, state):
@@ -41,7 +41,7 @@ def make(res3, state):
         d = FlowCal.io.FCSData(p)
         d._c19_min = [min(r[j] for r in ev) for j in range(3)]
         return d, [lambda x: x] * 3
-    pne = {'raw': '0,0', 'rfi-lin': '0,0', 'rfi-log4': '4,1', 'rfi-log2.5-0': '2.5,0', 'mef': '4,1'}[state]
+    pne = {'raw': '0,0', 'rfi-lin': '0,0', 'rfi-log4': '4,1', 'rfi-log2.5-0': '2.5,0', 'mef': '4,1', 'shifted': '0,0'}[state]
     events = [[0, 0, 0], [1, 1, 1]] + [[r - 1 for r in res3]] + [[r // 2 for r in res3]]
     extra = [('$P%dG' % (j + 1), g) for j, g in enumerate(['2.0', '0.5', '4.0'])] if state == 'rfi-lin' else []
     bits = [16 if r <= 65536 else 32 for r in res3]
@@ -60,6 +60,10 @@ def make(res3, state):
             fns = [lambda x, r=r: 1.0 * 10 ** (4.0 / r * x) for r in res3]
         else:
             fns = [lambda x, r=r: 1.0 * 10 ** (2.5 / r * x) for r in res3]
+    if state == 'shifted':
+        # background subtraction: every value and both range limits move down by 100.25
+        d = FlowCal.transform.transform(d, [0, 1, 2], lambda x: x - 100.25)
+        fns = [lambda x: x - 100.25] * 3
     if state == 'mef':
         scs = [lambda x, m=m, b=b: np.sign(x) * np.exp(b) * (np.abs(x) ** m) for m, b in ((1.05, 2.0), (0.95, 3.5), (1.2, 0.5))]
         d = FlowCal.transform.to_mef(d, [0, 1, 2], scs, [0, 1, 2])
@@ -75,17 +79,20 @@ def cases(tier, seed):
     for rs in trip:
         for st in STATES:
             for scale in ('linear', 'log', 'logicle'):
+                if st == 'shifted' and scale != 'linear':
+                    continue
                 yield dict(res=rs, state=st, scale=scale, tier=tier)
                 yield dict(res=rs, state=st, scale=scale, tier=tier, history='after-log')
                 yield dict(res=rs, state=st, scale=scale, tier=tier, history='empty')
-            yield dict(res=rs, state=st, scale='lists', tier=tier)
+            if st != 'shifted':
+                yield dict(res=rs, state=st, scale='lists', tier=tier)
 
 
 def bounds(tier, seed):
     return {'resolutions': RES, 'states': STATES, 'nbins': [1, 2, None, 7, 100], 'scales': ['linear', 'log', 'logicle', 'per-channel lists', 'unknown']}
 
 
-NBINS = [None, 1, 2, 7, 100]
+NBINS = [None, 1, 2, 7, 100, 'r+1', '2r']        # the last two: more bins than the channel has values
 
 
 def check_edges(res, sig, what, e, n, lim, vals, scale, default_n, fn_log_centres, one, M=None, tparams=None):
@@ -206,6 +213,7 @@ def run_case(c):
         for j in range(3):
             r = rs[j]
             for nb in NBINS:
+                nb = {'r+1': r + 1, '2r': 2 * r}.get(nb, nb)
                 n = r if nb is None else nb
                 for kw in overrides:
                     what = 'hist_bins(%s, channel %d (resolution %d), nbins=%r, scale=%r%s)' % (st, j, r, nb, scale, ''.join(', %s=%r' % kv for kv in kw.items()))
